@@ -14,7 +14,7 @@ RUN_THEOREMS = ['C10_noBatchBeyond', 'C10_budget', 'C10_success']
 MODULE = [('NautilusVerif.Properties.C10', THEOREMS), ('NautilusVerif.Properties.C10Run', RUN_THEOREMS),
           ('NautilusVerif.Properties.CoreRun', ['Run_phase', 'C10_run_budget', 'C10_run_noBatchBeyond', 'C10_run_return', 'C10_run_fill']),
           ('NautilusVerif.Properties.C05Tie', ['C05_run_skeleton']),
-          ('NautilusVerif.Properties.CoreTie', ['Core_tie_sampleShell', 'Core_tie_evaluateLikelihood', 'Core_tie_addSamples'])]
+          *common.core_tie(['sampleShell', 'evaluateLikelihood', 'addSamples'])]
 FILES = ['nautilus/sampler.py']
 INVARIANTS = ['aligned', 'run']
 
